@@ -16,7 +16,6 @@ EXTENDS PyExprCore
 \* deserialised ONCE (a plain definition is re-evaluated at every reference: quadratic)
 ASSUME TLCSet(1, JsonDeserialize(IOEnv.CASES))
 Cases == TLCGet(1)
-MaxFlags == 4
 
 RECURSIVE Kinds(_)
 Kids(n) ==
@@ -67,12 +66,47 @@ SetToSeq(SS) == LET RECURSIVE F(_)
                    F(T) == IF T = {} THEN <<>> ELSE LET x == CHOOSE y \in T : TRUE IN <<x>> \o F(T \ {x})
                IN F(SS)
 
-\* smallest explaining flag set of size k..MaxFlags, {} if none
-RECURSIVE Explain(_, _, _)
-Explain(c, A, k) ==
-  IF k > MaxFlags \/ k > Cardinality(A) THEN {}
-  ELSE LET ex == {fs \in SUBSET A : Cardinality(fs) = k /\ Accept(c, c.pys, fs).ok} IN
-       IF ex # {} THEN CHOOSE fs \in ex : TRUE ELSE Explain(c, A, k + 1)
+\* A flag set explains the recording if the flagged machine accepts it - or consumes ALL of it and
+\* then leaves the modelled fragment (a deviation sent a plain value into a plain primitive whose
+\* outcome the machine cannot compute).
+Expl(c, fs) == LET v == Accept(c, c.pys, fs) IN v.ok \/ (v.nm /\ v.at = Len(c.pys.trace) + 1)
+
+\* exhaustive: some explaining subset of A of size k (k..kmax), {} if none
+RECURSIVE Exhaust(_, _, _, _)
+Exhaust(c, A, k, kmax) ==
+  IF k > kmax \/ k > Cardinality(A) THEN {}
+  ELSE LET ex == {fs \in SUBSET A : Cardinality(fs) = k /\ Expl(c, fs)} IN
+       IF ex # {} THEN CHOOSE fs \in ex : TRUE ELSE Exhaust(c, A, k + 1, kmax)
+
+\* greedy: add the flag that lets the machine follow the recording furthest, until it is explained
+RECURSIVE Greedy(_, _, _, _)
+Greedy(c, A, fs, at) ==
+  LET cand == A \ fs
+      res  == [f \in cand |-> Accept(c, c.pys, fs \cup {f})]
+      oks  == {f \in cand : Expl(c, fs \cup {f})}
+  IN IF oks # {} THEN fs \cup {CHOOSE f \in oks : TRUE}
+     ELSE LET best == {f \in cand : res[f].at > at /\ \A g \in cand : res[g].at <= res[f].at} IN
+          IF best # {} THEN LET f == CHOOSE f \in best : TRUE IN Greedy(c, A, fs \cup {f}, res[f].at)
+          ELSE \* two deviations meet at the same event: try pairs
+               LET pairs == {pr \in SUBSET cand : Cardinality(pr) = 2}
+                   okp   == {pr \in pairs : Expl(c, fs \cup pr)} IN
+               IF okp # {} THEN fs \cup (CHOOSE pr \in okp : TRUE)
+               ELSE LET adv == {pr \in pairs : Accept(c, c.pys, fs \cup pr).at > at} IN
+                    IF adv = {} THEN {}
+                    ELSE LET pr == CHOOSE pr \in adv : \A q \in adv : Accept(c, c.pys, fs \cup q).at <= Accept(c, c.pys, fs \cup pr).at
+                         IN Greedy(c, A, fs \cup pr, Accept(c, c.pys, fs \cup pr).at)
+
+\* drop flags that are not needed (1-minimal explanation)
+RECURSIVE Minim(_, _)
+Minim(c, fs) ==
+  LET drop == {f \in fs : Expl(c, fs \ {f})} IN
+  IF drop = {} \/ Cardinality(fs) = 1 THEN fs ELSE Minim(c, fs \ {CHOOSE f \in drop : TRUE})
+
+Explain(c, A, at) ==
+  LET e1 == Exhaust(c, A, 1, 2) IN
+  IF e1 # {} THEN e1
+  ELSE LET g == Greedy(c, A, {}, at) IN
+       IF g # {} THEN Minim(c, g) ELSE Exhaust(c, A, 3, 3)
 
 Differ(c) ==
   IF c.pys.exc # c.cpy.exc THEN "exception type differs from CPython: '" \o c.pys.exc \o "' vs '" \o c.cpy.exc \o "'"
@@ -96,6 +130,6 @@ Report == i <= Len(Cases) =>
                LET d == Differ(c) IN
                IF d = "" THEN TRUE
                ELSE Line(c, "pys", <<"unexplained">>, [kind |-> "program", why |-> d, at |-> 0, nm |-> FALSE])
-          ELSE LET fs == Explain(c, Applicable(c), 1) IN
+          ELSE LET fs == Explain(c, Applicable(c), vp.at) IN
                Line(c, "pys", IF fs = {} THEN <<"unexplained">> ELSE SetToSeq(fs), vp)
 =============================================================================
